@@ -143,7 +143,7 @@ def build_driver():
         return False, (out + err)[-4000:]
     for f in (ROOT / 'ocaml').glob('*.ml'):
         shutil.copy(f, od / f.name)
-    order = ['model.mli', 'model.ml', 'drv_base.ml', 'drv_ast.ml'] + sorted(f.name for f in (ROOT / 'ocaml').glob('drv_c*.ml')) + ['driver.ml']
+    order = ['model.mli', 'model.ml', 'drv_base.ml', 'drv_ast.ml', 'drv_ir.ml'] + sorted(f.name for f in (ROOT / 'ocaml').glob('drv_c*.ml')) + ['driver.ml']
     rc, out, err = run(['ocamlfind', 'ocamlopt', '-w', '-a'] + order + ['-o', 'driver'], cwd=od, timeout=1000)
     if rc != 0:
         return False, (out + err)[-4000:]
@@ -260,22 +260,39 @@ def _chunks(lines, n):
     return [lines[i:i + k] for i in range(0, len(lines), k)]
 
 
-def _run_chunk(cmd, chunk, timeout, env=None):
-    p = subprocess.run(cmd, input='\n'.join(chunk) + '\n', capture_output=True, text=True, timeout=timeout, env=env or ENV)
-    out = p.stdout.split('\n')
-    if out and out[-1] == '':
-        out.pop()
-    if len(out) != len(chunk):
+def _run_chunk(cmd, chunk, timeout, env=None, abort_answer=None):
+    def once(lines):
+        p = subprocess.run(cmd, input='\n'.join(lines) + '\n', capture_output=True, text=True, timeout=timeout, env=env or ENV)
+        out = p.stdout.split('\n')
+        if out and out[-1] == '':
+            out.pop()
+        return p, out
+    p, out = once(chunk)
+    if len(out) == len(chunk):
+        return out
+    if abort_answer is None:
         raise RuntimeError(f'{cmd[0]}: {len(out)} answers for {len(chunk)} requests (rc={p.returncode}) stderr={p.stderr[-500:]}')
-    return out
+    # the process died (abort / stack overflow / kill) part-way: answers so far are good, the next
+    # request is the one that killed it; continue after it
+    res = []
+    rest = chunk
+    while rest:
+        p, out = once(rest)
+        if len(out) >= len(rest):
+            res += out[:len(rest)]
+            break
+        res += out
+        res.append(abort_answer(p.returncode))
+        rest = rest[len(out) + 1:]
+    return res
 
 
-def run_lines(cmd, lines, timeout=1200, jobs=NPROC):
+def run_lines(cmd, lines, timeout=1200, jobs=NPROC, abort_answer=None):
     if not lines:
         return []
     chunks = _chunks(lines, jobs)
     with concurrent.futures.ThreadPoolExecutor(max_workers=jobs) as ex:
-        outs = list(ex.map(lambda c: _run_chunk(cmd, c, timeout), chunks))
+        outs = list(ex.map(lambda c: _run_chunk(cmd, c, timeout, abort_answer=abort_answer), chunks))
     return [l for o in outs for l in o]
 
 
@@ -292,7 +309,8 @@ def model(lines, timeout=1200):
 
 def impl(objs, timeout=1200):
     """objs: JSON commands for libdrive (the real library built from /repo)."""
-    outs = run_lines([str(LIBDRIVE)], [json.dumps(o) for o in objs], timeout)
+    outs = run_lines([str(LIBDRIVE)], [json.dumps(o) for o in objs], timeout,
+                     abort_answer=lambda rc: json.dumps({'abort': rc}))
     return [json.loads(o) for o in outs]
 
 
